@@ -15,31 +15,57 @@ set_option linter.unusedSimpArgs false
 
 /-! ### what is a plain value, its size and depth, and what marshal.c returns for it -/
 
+
+def i32ok (x : Int) : Bool := decide (-2147483648 ≤ x) && decide (x < 2147483648)
+
+/-- a code object in the 3.4–3.10 marshal layout, as the reader produces it: the sixteen fields in
+    order, integer fields within 32 bits, co_posonlyargcount present exactly from 3.8 -/
+def codeShape (ver : List Nat) (fs : List (String × V)) : Bool :=
+  match fs with
+  | [("co_argcount", .int a), ("co_posonlyargcount", pos), ("co_kwonlyargcount", .int k), ("co_nlocals", .int nl),
+     ("co_stacksize", .int ss), ("co_flags", .int fl), ("co_code", _), ("co_consts", _), ("co_names", _),
+     ("co_varnames", _), ("co_freevars", _), ("co_cellvars", _), ("co_filename", _), ("co_name", _),
+     ("co_firstlineno", .int first), ("co_linetable", _)] =>
+      verGeL ver 3 0 && !(verGeL ver 3 11) && i32ok a && i32ok k && i32ok nl && i32ok ss && i32ok fl && i32ok first &&
+      (match pos with
+       | .int p => verGeL ver 3 8 && i32ok p
+       | .none => !(verGeL ver 3 8)
+       | _ => false)
+  | _ => false
+
 mutual
 /-- values `dumps` handles; size fields fit their 32-bit slots (a property of any object that fits in memory) -/
-def Plain : V → Bool
+def Plain (ver : List Nat) : V → Bool
   | .none | .tru | .fls | .ellipsis | .stopIter => true
   | .int i | .long i => decide ((digits15 (i.natAbs + 1) i.natAbs).length < 2147483648)
   | .floatText s => decide (s.length < 256)
   | .complexText r i => decide (r.length < 256) && decide (i.length < 256)
   | .bytes b => decide (b.length < 2147483648)
   | .str cps => cps.all (· < 0x110000) && decide ((utf8Enc cps).length < 2147483648)
-  | .tuple xs | .list xs | .set xs | .fset xs => decide (xs.length < 2147483648) && PlainL xs
-  | .dict kvs => PlainKV kvs
+  | .tuple xs | .list xs | .set xs | .fset xs => decide (xs.length < 2147483648) && PlainL ver xs
+  | .dict kvs => PlainKV ver kvs
+  | .code fs => codeShape ver fs && PlainF ver fs
   | _ => false
-def PlainL : List V → Bool
+def PlainF (ver : List Nat) : List (String × V) → Bool
   | [] => true
-  | x :: xs => Plain x && PlainL xs
-def PlainKV : List (V × V) → Bool
+  | (_, v) :: r => Plain ver v && PlainF ver r
+def PlainL (ver : List Nat) : List V → Bool
   | [] => true
-  | (k, v) :: r => Plain k && Plain v && PlainKV r
+  | x :: xs => Plain ver x && PlainL ver xs
+def PlainKV (ver : List Nat) : List (V × V) → Bool
+  | [] => true
+  | (k, v) :: r => Plain ver k && Plain ver v && PlainKV ver r
 end
 
 mutual
 def size : V → Nat
   | .tuple xs | .list xs | .set xs | .fset xs => 1 + sizeL xs
   | .dict kvs => 1 + sizeKV kvs
+  | .code fs => 3 + sizeF fs
   | _ => 1
+def sizeF : List (String × V) → Nat
+  | [] => 0
+  | (_, v) :: r => max (size v) (sizeF r)
 def sizeL : List V → Nat
   | [] => 1
   | x :: xs => 1 + size x + sizeL xs
@@ -52,7 +78,11 @@ mutual
 def depthOf : V → Nat
   | .tuple xs | .list xs | .set xs | .fset xs => 1 + depthL xs
   | .dict kvs => 1 + depthKV kvs
+  | .code fs => 1 + depthF fs
   | _ => 0
+def depthF : List (String × V) → Nat
+  | [] => 0
+  | (_, v) :: r => max (depthOf v) (depthF r)
 def depthL : List V → Nat
   | [] => 0
   | x :: xs => max (depthOf x) (depthL xs)
@@ -70,7 +100,11 @@ def norm : V → V
   | .set xs => .set (normL xs)
   | .fset xs => .fset (normL xs)
   | .dict kvs => .dict (normKV kvs)
+  | .code fs => .code (normF fs)
   | v => v
+def normF : List (String × V) → List (String × V)
+  | [] => []
+  | (n, v) :: r => (n, norm v) :: normF r
 def normL : List V → List V
   | [] => []
   | x :: xs => norm x :: normL xs
@@ -78,6 +112,8 @@ def normKV : List (V × V) → List (V × V)
   | [] => []
   | (k, v) :: r => (norm k, norm v) :: normKV r
 end
+
+variable (ver : List Nat)
 
 /-! ### run lemmas for the Spec's primitives -/
 
@@ -191,7 +227,6 @@ theorem digits_app (ds : List Nat) (hds : ∀ d ∈ ds, d < 32768) (j : Nat) (ac
 
 set_option maxHeartbeats 2000000
 
-abbrev ver312 : List Nat := [3, 12]
 
 theorem ref_false (v : V) (s : PSt) : (ref v false).run s = .ok (v, s) := rfl
 theorem reserve_false (s : PSt) : (reserve false).run s = .ok (none, s) := rfl
@@ -210,8 +245,8 @@ theorem lastOr1_getLast (ds : List Nat) (d : Nat) (h : ds.getLast? = some d) : l
 
 /-- the int case: `dump_long` then marshal.c's 'l' reader -/
 theorem int_case (i : Int) (hp : (digits15 (i.natAbs + 1) i.natAbs).length < 2147483648)
-    (fuel d : Nat) (hd : d ≤ 2000) (tail : Bytes) (r : List (Option V)) (s : List V) :
-    (rObj cpython 4 ver312 (fuel + 1) d false).run (st (dumpLong i ++ tail) r s) = .ok (some (V.int i), st tail r s) := by
+    (fuel d : Nat) (txt : Bool) (hd : d ≤ 2000) (tail : Bytes) (r : List (Option V)) (s : List V) :
+    (rObj cpython 4 ver (fuel + 1) d txt).run (st (dumpLong i ++ tail) r s) = .ok (some (V.int i), st tail r s) := by
   have hdep : ¬ d > cpython.maxDepth := by simp [cpython]; omega
   obtain ⟨hv, hlt, hlast⟩ := digits15_spec (i.natAbs + 1) i.natAbs (by omega)
   generalize hds : digits15 (i.natAbs + 1) i.natAbs = ds at hv hlt hlast hp
@@ -267,11 +302,11 @@ theorem depth_le_of (x : V) (xs : List V) : depthOf x ≤ depthL (x :: xs) ∧ d
   simp only [depthL]; omega
 
 /-- a container: size field, item loop, no reference slot -/
-theorem cont_case (tc : Nat) (mk : List V → V) (xs : List V) (fuel d : Nat) (tail : Bytes) (r : List (Option V)) (s : List V)
+theorem cont_case (tc : Nat) (mk : List V → V) (xs : List V) (fuel d : Nat) (txt : Bool) (tail : Bytes) (r : List (Option V)) (s : List V)
     (hd : d ≤ 2000) (hlen : xs.length < 2147483648) (htc : tc = 40 ∨ tc = 91 ∨ tc = 60 ∨ tc = 62)
     (hmk : (tc = 40 → mk = V.tuple) ∧ (tc = 91 → mk = V.list) ∧ (tc = 60 → mk = V.set) ∧ (tc = 62 → mk = V.fset))
-    (hitems : (items cpython 4 ver312 fuel d false xs.length).run (st (dumpList xs ++ tail) r s) = .ok (normL xs, st tail r s)) :
-    (rObj cpython 4 ver312 (fuel + 1) d false).run (st (tc :: (wLong (xs.length : Int) ++ (dumpList xs ++ tail))) r s) =
+    (hitems : (items cpython 4 ver fuel d txt xs.length).run (st (dumpList xs ++ tail) r s) = .ok (normL xs, st tail r s)) :
+    (rObj cpython 4 ver (fuel + 1) d txt).run (st (tc :: (wLong (xs.length : Int) ++ (dumpList xs ++ tail))) r s) =
       .ok (some (mk (normL xs)), st tail r s) := by
   have hdep : ¬ d > cpython.maxDepth := by simp [cpython]; omega
   rw [rObj]
@@ -313,20 +348,20 @@ theorem cont_case (tc : Nat) (mk : List V → V) (xs : List V) (fuel d : Nat) (t
     simp only [insert_none, run_pure, h4 rfl]
 
 def StmtA (fuel : Nat) : Prop :=
-  ∀ v, Plain v = true → size v ≤ fuel → ∀ d tail r s, d + depthOf v ≤ 2000 →
-    (rObj cpython 4 ver312 fuel d false).run (st (dump v ++ tail) r s) = .ok (some (norm v), st tail r s)
+  ∀ v, Plain ver v = true → size v ≤ fuel → ∀ d txt tail r s, d + depthOf v ≤ 2000 →
+    (rObj cpython 4 ver fuel d txt).run (st (dump v ++ tail) r s) = .ok (some (norm v), st tail r s)
 def StmtB (fuel : Nat) : Prop :=
-  ∀ xs, PlainL xs = true → sizeL xs ≤ fuel → ∀ d tail r s, d + 1 + depthL xs ≤ 2000 →
-    (items cpython 4 ver312 fuel d false xs.length).run (st (dumpList xs ++ tail) r s) = .ok (normL xs, st tail r s)
+  ∀ xs, PlainL ver xs = true → sizeL xs ≤ fuel → ∀ d txt tail r s, d + 1 + depthL xs ≤ 2000 →
+    (items cpython 4 ver fuel d txt xs.length).run (st (dumpList xs ++ tail) r s) = .ok (normL xs, st tail r s)
 def StmtC (fuel : Nat) : Prop :=
-  ∀ kvs, PlainKV kvs = true → sizeKV kvs ≤ fuel → ∀ d tail r s, d + 1 + depthKV kvs ≤ 2000 →
-    (dictItems cpython 4 ver312 fuel d false).run (st (dumpKVs kvs ++ 48 :: tail) r s) = .ok (normKV kvs, st tail r s)
+  ∀ kvs, PlainKV ver kvs = true → sizeKV kvs ≤ fuel → ∀ d txt tail r s, d + 1 + depthKV kvs ≤ 2000 →
+    (dictItems cpython 4 ver fuel d txt).run (st (dumpKVs kvs ++ 48 :: tail) r s) = .ok (normKV kvs, st tail r s)
 
 theorem size_pos (v : V) : 1 ≤ size v := by cases v <;> simp [size] <;> omega
 theorem sizeL_pos (xs : List V) : 1 ≤ sizeL xs := by cases xs <;> simp [sizeL] <;> omega
 
-theorem stepB (fuel : Nat) (hA : StmtA fuel) (hB : StmtB fuel) : StmtB (fuel + 1) := by
-  intro xs hp hs d tail r s hdep
+theorem stepB (fuel : Nat) (hA : StmtA ver fuel) (hB : StmtB ver fuel) : StmtB ver (fuel + 1) := by
+  intro xs hp hs d txt tail r s hdep
   cases xs with
   | nil =>
     simp only [List.length_nil, dumpList, List.nil_append, normL]
@@ -338,13 +373,13 @@ theorem stepB (fuel : Nat) (hA : StmtA fuel) (hB : StmtB fuel) : StmtB (fuel + 1
     simp only [sizeL] at hs
     have hdx := depth_le_of x xs
     simp only [List.length_cons, dumpList, List.append_assoc, normL]
-    rw [items, run_bind, hA x hp.1 (by omega) (d + 1) _ r s (by omega)]
+    rw [items, run_bind, hA x hp.1 (by omega) (d + 1) txt _ r s (by omega)]
     simp only []
-    rw [run_bind, hB xs hp.2 (by omega) d tail r s (by omega)]
+    rw [run_bind, hB xs hp.2 (by omega) d txt tail r s (by omega)]
     rfl
 
-theorem rObj_null (f d : Nat) (hd : d ≤ 2000) (tail : Bytes) (r : List (Option V)) (s : List V) :
-    (rObj cpython 4 ver312 (f + 1) d false).run (st (48 :: tail) r s) = .ok (none, st tail r s) := by
+theorem rObj_null (f d : Nat) (txt : Bool) (hd : d ≤ 2000) (tail : Bytes) (r : List (Option V)) (s : List V) :
+    (rObj cpython 4 ver (f + 1) d txt).run (st (48 :: tail) r s) = .ok (none, st tail r s) := by
   have hdep : ¬ d > cpython.maxDepth := by simp [cpython]; omega
   rw [rObj]
   simp only [hdep, if_false]
@@ -354,14 +389,14 @@ theorem rObj_null (f d : Nat) (hd : d ≤ 2000) (tail : Bytes) (r : List (Option
   rw [if_neg hg]
   rfl
 
-theorem stepC (fuel : Nat) (hA : StmtA fuel) (hC : StmtC fuel) : StmtC (fuel + 1) := by
-  intro kvs hp hs d tail r s hdep
+theorem stepC (fuel : Nat) (hA : StmtA ver fuel) (hC : StmtC ver fuel) : StmtC ver (fuel + 1) := by
+  intro kvs hp hs d txt tail r s hdep
   cases kvs with
   | nil =>
     simp only [dumpKVs, List.nil_append, normKV]
     simp only [sizeKV] at hs
     obtain ⟨f', rfl⟩ : ∃ f', fuel = f' + 1 := ⟨fuel - 1, by omega⟩
-    rw [dictItems, run_bind, rObj_null f' (d + 1) (by simp [depthKV] at hdep; omega)]
+    rw [dictItems, run_bind, rObj_null ver f' (d + 1) txt (by simp [depthKV] at hdep; omega)]
     rfl
   | cons kv kvs =>
     obtain ⟨k, v⟩ := kv
@@ -369,15 +404,158 @@ theorem stepC (fuel : Nat) (hA : StmtA fuel) (hC : StmtC fuel) : StmtC (fuel + 1
     simp only [sizeKV] at hs
     simp only [depthKV] at hdep
     simp only [dumpKVs, List.append_assoc, normKV]
-    rw [dictItems, run_bind, hA k hp.1.1 (by omega) (d + 1) _ r s (by omega)]
+    rw [dictItems, run_bind, hA k hp.1.1 (by omega) (d + 1) txt _ r s (by omega)]
     simp only []
-    rw [run_bind, hA v hp.1.2 (by omega) (d + 1) _ r s (by omega)]
+    rw [run_bind, hA v hp.1.2 (by omega) (d + 1) txt _ r s (by omega)]
     simp only []
-    rw [run_bind, hC kvs hp.2 (by omega) d tail r s (by omega)]
+    rw [run_bind, hC kvs hp.2 (by omega) d txt tail r s (by omega)]
     rfl
 
-theorem stepA (fuel : Nat) (hB : StmtB fuel) (hC : StmtC fuel) : StmtA (fuel + 1) := by
-  intro v hp hs d tail r s hdepth
+/-- what `codeShape` says, as an equation -/
+theorem shape_of (ver : List Nat) (fs : List (String × V)) (h : codeShape ver fs = true) :
+    ∃ a pos k nl ss fl c cs ns vn fv cv fn nm first lt,
+      fs = [("co_argcount", .int a), ("co_posonlyargcount", pos), ("co_kwonlyargcount", .int k), ("co_nlocals", .int nl),
+        ("co_stacksize", .int ss), ("co_flags", .int fl), ("co_code", c), ("co_consts", cs), ("co_names", ns),
+        ("co_varnames", vn), ("co_freevars", fv), ("co_cellvars", cv), ("co_filename", fn), ("co_name", nm),
+        ("co_firstlineno", .int first), ("co_linetable", lt)] ∧
+      verGeL ver 3 0 = true ∧ verGeL ver 3 11 = false ∧ i32ok a = true ∧ i32ok k = true ∧ i32ok nl = true ∧
+      i32ok ss = true ∧ i32ok fl = true ∧ i32ok first = true ∧
+      ((∃ p, pos = .int p ∧ verGeL ver 3 8 = true ∧ i32ok p = true) ∨ (pos = .none ∧ verGeL ver 3 8 = false)) := by
+  unfold codeShape at h
+  split at h
+  · rename_i a pos k nl ss fl c cs ns vn fv cv fn nm first lt
+    simp only [Bool.and_eq_true, Bool.not_eq_true'] at h
+    obtain ⟨⟨⟨⟨⟨⟨⟨⟨h1, h2⟩, h3⟩, h4⟩, h5⟩, h6⟩, h7⟩, h8⟩, h9⟩ := h
+    refine ⟨a, pos, k, nl, ss, fl, c, cs, ns, vn, fv, cv, fn, nm, first, lt, rfl, h1, h2, h3, h4, h5, h6, h7, h8, ?_⟩
+    split at h9
+    · rename_i p
+      simp only [Bool.and_eq_true] at h9
+      exact Or.inl ⟨p, rfl, h9.1, h9.2⟩
+    · simp only [Bool.not_eq_true'] at h9
+      exact Or.inr ⟨rfl, h9⟩
+    · cases h9
+  · cases h
+
+theorem obj_app (ver : List Nat) (f2 : Nat) (hA : StmtA ver f2) (v : V) (hp : Plain ver v = true) (hs : size v ≤ f2)
+    (d : Nat) (txt : Bool) (tail : Bytes) (r : List (Option V)) (s : List V) (hd : d + 1 + depthOf v ≤ 2000) :
+    (obj cpython 4 ver (f2 + 1) d txt).run (st (dump v ++ tail) r s) = .ok (norm v, st tail r s) := by
+  unfold obj
+  rw [run_bind, hA v hp hs (d + 1) txt tail r s (by omega)]
+  rfl
+
+theorem i32ok_iff (x : Int) (h : i32ok x = true) : -2147483648 ≤ x ∧ x < 2147483648 := by
+  simpa [i32ok] using h
+
+
+theorem depthF_mem (fs : List (String × V)) (n : String) (v : V) (h : (n, v) ∈ fs) : depthOf v ≤ depthF fs := by
+  induction fs with
+  | nil => simp at h
+  | cons x xs ih =>
+    obtain ⟨m, w⟩ := x
+    simp only [depthF]
+    rcases List.mem_cons.mp h with h | h
+    · cases h; omega
+    · have := ih h; omega
+
+theorem sizeF_mem (fs : List (String × V)) (n : String) (v : V) (h : (n, v) ∈ fs) : size v ≤ sizeF fs := by
+  induction fs with
+  | nil => simp at h
+  | cons x xs ih =>
+    obtain ⟨m, w⟩ := x
+    simp only [sizeF]
+    rcases List.mem_cons.mp h with h | h
+    · cases h; omega
+    · have := ih h; omega
+
+/-- a code object: dump_code3's bytes read by marshal.c's code reader -/
+theorem code_case (ver : List Nat) (fs : List (String × V)) (hshape : codeShape ver fs = true) (hpf : PlainF ver fs = true)
+    (f2 d : Nat) (txt : Bool) (tail : Bytes) (r : List (Option V)) (s : List V)
+    (hd : d + 1 + depthF fs ≤ 2000) (hsz : sizeF fs ≤ f2) (hA : StmtA ver f2) :
+    (rObj cpython 4 ver (f2 + 3) d txt).run (st (dump (.code fs) ++ tail) r s) =
+      .ok (some (.code (normF fs)), st tail r s) := by
+  obtain ⟨a, pos, k, nl, ss, fl, c, cs, ns, vn, fv, cv, fn, nm, first, lt, hfs, g30, g311, ha, hk, hnl, hss, hfl, hfirst, hpos⟩ :=
+    shape_of ver fs hshape
+  have g13 := XV.Props.C10.Sim.verGeL_mono ver 3 0 1 3 (by omega) g30
+  have g15 := XV.Props.C10.Sim.verGeL_mono ver 3 0 1 5 (by omega) g30
+  have g21 := XV.Props.C10.Sim.verGeL_mono ver 3 0 2 1 (by omega) g30
+  have g23 := XV.Props.C10.Sim.verGeL_mono ver 3 0 2 3 (by omega) g30
+  have hdep : ¬ d > cpython.maxDepth := by simp [cpython]; omega
+  have dz := fun n v h => depthF_mem fs n v h
+  have sz := fun n v h => sizeF_mem fs n v h
+  have d_c := dz "co_code" c (by rw [hfs]; simp); have s_c := sz "co_code" c (by rw [hfs]; simp)
+  have d_cs := dz "co_consts" cs (by rw [hfs]; simp); have s_cs := sz "co_consts" cs (by rw [hfs]; simp)
+  have d_ns := dz "co_names" ns (by rw [hfs]; simp); have s_ns := sz "co_names" ns (by rw [hfs]; simp)
+  have d_vn := dz "co_varnames" vn (by rw [hfs]; simp); have s_vn := sz "co_varnames" vn (by rw [hfs]; simp)
+  have d_fv := dz "co_freevars" fv (by rw [hfs]; simp); have s_fv := sz "co_freevars" fv (by rw [hfs]; simp)
+  have d_cv := dz "co_cellvars" cv (by rw [hfs]; simp); have s_cv := sz "co_cellvars" cv (by rw [hfs]; simp)
+  have d_fn := dz "co_filename" fn (by rw [hfs]; simp); have s_fn := sz "co_filename" fn (by rw [hfs]; simp)
+  have d_nm := dz "co_name" nm (by rw [hfs]; simp); have s_nm := sz "co_name" nm (by rw [hfs]; simp)
+  have d_lt := dz "co_linetable" lt (by rw [hfs]; simp); have s_lt := sz "co_linetable" lt (by rw [hfs]; simp)
+  generalize depthF fs = DF at hd d_c d_cs d_ns d_vn d_fv d_cv d_fn d_nm d_lt
+  generalize sizeF fs = SF at hsz s_c s_cs s_ns s_vn s_fv s_cv s_fn s_nm s_lt
+  clear dz sz
+  subst hfs
+  simp only [PlainF, Bool.and_eq_true, Bool.and_true] at hpf
+  obtain ⟨_, _, _, _, _, _, pc, pcs, pns, pvn, pfv, pcv, pfn, pnm, _, plt⟩ := hpf
+  have hflag : (decide True && decide (0 ≠ 0)) = false := by decide
+  obtain ⟨a1, a2⟩ := i32ok_iff a ha
+  obtain ⟨k1, k2⟩ := i32ok_iff k hk
+  obtain ⟨n1, n2⟩ := i32ok_iff nl hnl
+  obtain ⟨s1, s2⟩ := i32ok_iff ss hss
+  obtain ⟨l1, l2⟩ := i32ok_iff fl hfl
+  obtain ⟨r1, r2⟩ := i32ok_iff first hfirst
+  rcases hpos with ⟨p, rfl, g38, hp⟩ | ⟨rfl, g38⟩
+  · obtain ⟨p1, p2⟩ := i32ok_iff p hp
+    simp only [dump, dumpFields, assembleCode, norm, normF, List.cons_append, List.nil_append, List.append_assoc]
+    rw [rObj]; simp only [hdep, if_false]; rw [run_bind, u8_app]
+    simp only [if_true, Nat.reduceAnd, Nat.reduceEqDiff, if_false]
+    rw [run_bind, hflag, code, run_bind, reserve_false]
+    simp only [argcountF, posonlyF, kwonlyF, nlocalsF, stacksizeF, flagsF, firstF, intF, g30, g311, g13, g15, g21, g23, g38,
+      if_true, if_false, Bool.false_eq_true]
+    rw [run_bind, i32_app a a1 a2]; simp only []
+    rw [run_bind, run_bind, i32_app p p1 p2]; simp only [run_pure]
+    rw [run_bind, i32_app k k1 k2]; simp only []
+    rw [run_bind, i32_app nl n1 n2]; simp only []
+    rw [run_bind, i32_app ss s1 s2]; simp only []
+    rw [run_bind, i32_app fl l1 l2]; simp only []
+    rw [run_bind, obj_app ver f2 hA c pc (by omega) d false _ r s (by omega)]; simp only []
+    rw [run_bind, obj_app ver f2 hA cs pcs (by omega) d false _ r s (by omega)]; simp only []
+    rw [run_bind, obj_app ver f2 hA ns pns (by omega) d false _ r s (by omega)]; simp only []
+    rw [run_bind, obj_app ver f2 hA vn pvn (by omega) d true _ r s (by omega)]; simp only []
+    rw [run_bind, obj_app ver f2 hA fv pfv (by omega) d false _ r s (by omega)]; simp only []
+    rw [run_bind, obj_app ver f2 hA cv pcv (by omega) d false _ r s (by omega)]; simp only []
+    rw [run_bind, obj_app ver f2 hA fn pfn (by omega) d false _ r s (by omega)]; simp only []
+    rw [run_bind, obj_app ver f2 hA nm pnm (by omega) d false _ r s (by omega)]; simp only []
+    rw [run_bind, i32_app first r1 r2]; simp only []
+    rw [run_bind, obj_app ver f2 hA lt plt (by omega) d false _ r s (by omega)]; simp only []
+    rfl
+  · simp only [dump, dumpFields, assembleCode, norm, normF, List.cons_append, List.nil_append, List.append_assoc]
+    rw [rObj]; simp only [hdep, if_false]; rw [run_bind, u8_app]
+    simp only [if_true, Nat.reduceAnd, Nat.reduceEqDiff, if_false]
+    rw [run_bind, hflag, code, run_bind, reserve_false]
+    simp only [argcountF, posonlyF, kwonlyF, nlocalsF, stacksizeF, flagsF, firstF, intF, g30, g311, g13, g15, g21, g23, g38,
+      if_true, if_false, Bool.false_eq_true]
+    rw [run_bind, i32_app a a1 a2]; simp only []
+    rw [run_bind, run_pure]; simp only []
+    rw [run_bind, i32_app k k1 k2]; simp only []
+    rw [run_bind, i32_app nl n1 n2]; simp only []
+    rw [run_bind, i32_app ss s1 s2]; simp only []
+    rw [run_bind, i32_app fl l1 l2]; simp only []
+    rw [run_bind, obj_app ver f2 hA c pc (by omega) d false _ r s (by omega)]; simp only []
+    rw [run_bind, obj_app ver f2 hA cs pcs (by omega) d false _ r s (by omega)]; simp only []
+    rw [run_bind, obj_app ver f2 hA ns pns (by omega) d false _ r s (by omega)]; simp only []
+    rw [run_bind, obj_app ver f2 hA vn pvn (by omega) d true _ r s (by omega)]; simp only []
+    rw [run_bind, obj_app ver f2 hA fv pfv (by omega) d false _ r s (by omega)]; simp only []
+    rw [run_bind, obj_app ver f2 hA cv pcv (by omega) d false _ r s (by omega)]; simp only []
+    rw [run_bind, obj_app ver f2 hA fn pfn (by omega) d false _ r s (by omega)]; simp only []
+    rw [run_bind, obj_app ver f2 hA nm pnm (by omega) d false _ r s (by omega)]; simp only []
+    rw [run_bind, i32_app first r1 r2]; simp only []
+    rw [run_bind, obj_app ver f2 hA lt plt (by omega) d false _ r s (by omega)]; simp only []
+    rfl
+
+theorem stepA (fuel : Nat) (hB : StmtB ver fuel) (hC : StmtC ver fuel)
+    (hAll : ∀ f2, f2 + 2 = fuel → StmtA ver f2) : StmtA ver (fuel + 1) := by
+  intro v hp hs d txt tail r s hdepth
   have hflag : (decide True && decide (0 ≠ 0)) = false := by decide
   cases v with
   | none =>
@@ -408,11 +586,11 @@ theorem stepA (fuel : Nat) (hB : StmtB fuel) (hC : StmtC fuel) : StmtA (fuel + 1
   | int i =>
     simp only [Plain, decide_eq_true_eq] at hp
     simp only [dump, norm]
-    exact int_case i hp fuel d (by simp [depthOf] at hdepth; omega) tail r s
+    exact int_case ver i hp fuel d txt (by simp [depthOf] at hdepth; omega) tail r s
   | long i =>
     simp only [Plain, decide_eq_true_eq] at hp
     simp only [dump, norm]
-    exact int_case i hp fuel d (by simp [depthOf] at hdepth; omega) tail r s
+    exact int_case ver i hp fuel d txt (by simp [depthOf] at hdepth; omega) tail r s
   | floatText t =>
     have hdep : ¬ d > cpython.maxDepth := by simp [cpython]; simp [depthOf] at hdepth; omega
     simp only [Plain, decide_eq_true_eq] at hp
@@ -446,7 +624,7 @@ theorem stepA (fuel : Nat) (hB : StmtB fuel) (hC : StmtC fuel) : StmtA (fuel + 1
     simp only [dump, List.cons_append, List.nil_append, List.append_assoc, norm]
     rw [rObj]; simp only [hdep, if_false]; rw [run_bind, u8_app]
     simp only [if_true, Nat.reduceAnd, Nat.reduceEqDiff, if_false]
-    have hg : ¬ ((cpython.strict && false) = true) := by simp
+    have hg : ¬ ((cpython.strict && txt) = true) := by simp [cpython]
     rw [if_neg hg, run_bind, run_bind, size32_app _ hp]
     simp only []
     rw [run_bind, rd_app _ b tail rfl, hflag]
@@ -468,33 +646,33 @@ theorem stepA (fuel : Nat) (hB : StmtB fuel) (hC : StmtC fuel) : StmtA (fuel + 1
     simp only [size] at hs
     simp only [depthOf] at hdepth
     simp only [dump, List.cons_append, List.nil_append, List.append_assoc, norm]
-    exact cont_case 40 V.tuple xs fuel d tail r s (by omega) hp.1 (Or.inl rfl)
+    exact cont_case ver 40 V.tuple xs fuel d txt tail r s (by omega) hp.1 (Or.inl rfl)
       ⟨fun _ => rfl, (fun h => absurd h (by decide)), (fun h => absurd h (by decide)), (fun h => absurd h (by decide))⟩
-      (hB xs hp.2 (by omega) d tail r s (by omega))
+      (hB xs hp.2 (by omega) d txt tail r s (by omega))
   | list xs =>
     simp only [Plain, Bool.and_eq_true, decide_eq_true_eq] at hp
     simp only [size] at hs
     simp only [depthOf] at hdepth
     simp only [dump, List.cons_append, List.nil_append, List.append_assoc, norm]
-    exact cont_case 91 V.list xs fuel d tail r s (by omega) hp.1 (Or.inr (Or.inl rfl))
+    exact cont_case ver 91 V.list xs fuel d txt tail r s (by omega) hp.1 (Or.inr (Or.inl rfl))
       ⟨(fun h => absurd h (by decide)), fun _ => rfl, (fun h => absurd h (by decide)), (fun h => absurd h (by decide))⟩
-      (hB xs hp.2 (by omega) d tail r s (by omega))
+      (hB xs hp.2 (by omega) d txt tail r s (by omega))
   | set xs =>
     simp only [Plain, Bool.and_eq_true, decide_eq_true_eq] at hp
     simp only [size] at hs
     simp only [depthOf] at hdepth
     simp only [dump, List.cons_append, List.nil_append, List.append_assoc, norm]
-    exact cont_case 60 V.set xs fuel d tail r s (by omega) hp.1 (Or.inr (Or.inr (Or.inl rfl)))
+    exact cont_case ver 60 V.set xs fuel d txt tail r s (by omega) hp.1 (Or.inr (Or.inr (Or.inl rfl)))
       ⟨(fun h => absurd h (by decide)), (fun h => absurd h (by decide)), fun _ => rfl, (fun h => absurd h (by decide))⟩
-      (hB xs hp.2 (by omega) d tail r s (by omega))
+      (hB xs hp.2 (by omega) d txt tail r s (by omega))
   | fset xs =>
     simp only [Plain, Bool.and_eq_true, decide_eq_true_eq] at hp
     simp only [size] at hs
     simp only [depthOf] at hdepth
     simp only [dump, List.cons_append, List.nil_append, List.append_assoc, norm]
-    exact cont_case 62 V.fset xs fuel d tail r s (by omega) hp.1 (Or.inr (Or.inr (Or.inr rfl)))
+    exact cont_case ver 62 V.fset xs fuel d txt tail r s (by omega) hp.1 (Or.inr (Or.inr (Or.inr rfl)))
       ⟨(fun h => absurd h (by decide)), (fun h => absurd h (by decide)), (fun h => absurd h (by decide)), fun _ => rfl⟩
-      (hB xs hp.2 (by omega) d tail r s (by omega))
+      (hB xs hp.2 (by omega) d txt tail r s (by omega))
   | dict kvs =>
     have hdep : ¬ d > cpython.maxDepth := by simp [cpython]; simp [depthOf] at hdepth; omega
     simp only [Plain] at hp
@@ -505,31 +683,39 @@ theorem stepA (fuel : Nat) (hB : StmtB fuel) (hC : StmtC fuel) : StmtA (fuel + 1
     simp only [if_true, Nat.reduceAnd, Nat.reduceEqDiff, if_false]
     rw [run_bind, run_bind, hflag, reserve_false]
     simp only []
-    rw [run_bind, hC kvs hp (by omega) d tail r s (by omega)]
+    rw [run_bind, hC kvs hp (by omega) d txt tail r s (by omega)]
     rfl
   | float _ => simp [Plain] at hp
   | complex _ _ => simp [Plain] at hp
   | u2 _ => simp [Plain] at hp
-  | code _ => simp [Plain] at hp
+  | code fs =>
+    simp only [Plain, Bool.and_eq_true] at hp
+    simp only [size] at hs
+    simp only [depthOf] at hdepth
+    obtain ⟨f2, rfl⟩ : ∃ f2, fuel = f2 + 2 := ⟨fuel - 2, by omega⟩
+    simp only [norm]
+    exact code_case ver fs hp.1 hp.2 f2 d txt tail r s (by omega) (by omega) (hAll f2 rfl)
 
-theorem all_stmts : ∀ fuel, StmtA fuel ∧ StmtB fuel ∧ StmtC fuel := by
+theorem all_stmts : ∀ fuel, StmtA ver fuel ∧ StmtB ver fuel ∧ StmtC ver fuel := by
   intro fuel
-  induction fuel with
-  | zero =>
-    refine ⟨?_, ?_, ?_⟩
-    · intro v _ hs; have := size_pos v; omega
-    · intro xs _ hs; have := sizeL_pos xs; omega
-    · intro kvs _ hs; cases kvs with
-      | nil => simp [sizeKV] at hs
-      | cons kv kvs => obtain ⟨k, v⟩ := kv; simp [sizeKV] at hs
-  | succ f ih =>
-    obtain ⟨hA, hB, hC⟩ := ih
-    exact ⟨stepA f hB hC, stepB f hA hB, stepC f hA hC⟩
+  induction fuel using Nat.strongRecOn with
+  | ind fuel ih =>
+    cases fuel with
+    | zero =>
+      refine ⟨?_, ?_, ?_⟩
+      · intro v _ hs; have := size_pos v; omega
+      · intro xs _ hs; have := sizeL_pos xs; omega
+      · intro kvs _ hs; cases kvs with
+        | nil => simp [sizeKV] at hs
+        | cons kv kvs => obtain ⟨k, v⟩ := kv; simp [sizeKV] at hs
+    | succ f =>
+      obtain ⟨hA, hB, hC⟩ := ih f (by omega)
+      exact ⟨stepA ver f hB hC (fun f2 h2 => (ih f2 (by omega)).1), stepB ver f hA hB, stepC ver f hA hC⟩
 
 theorem wLong_length (x : Int) : (wLong x).length = 4 := by simp [wLong, toLE_length]
 
 mutual
-theorem size_le : (v : V) → Plain v = true → size v + 1 ≤ 2 * (dump v).length
+theorem size_le : (v : V) → Plain ver v = true → size v + 1 ≤ 2 * (dump v).length
   | .none, _ | .tru, _ | .fls, _ | .ellipsis, _ | .stopIter, _ => by simp [size, dump]
   | .int i, _ | .long i, _ => by simp [size, dump, dumpLong, wLong_length]; omega
   | .floatText t, _ => by simp [size, dump]; omega
@@ -551,15 +737,65 @@ theorem size_le : (v : V) → Plain v = true → size v + 1 ≤ 2 * (dump v).len
   | .dict kvs, hp => by
       have := sizeKV_le kvs (by simp [Plain] at hp; exact hp)
       simp [size, dump]; omega
-  | .float _, hp | .complex _ _, hp | .u2 _, hp | .code _, hp => by simp [Plain] at hp
-theorem sizeL_le : (xs : List V) → PlainL xs = true → sizeL xs ≤ 1 + 2 * (dumpList xs).length
+  | .float _, hp | .complex _ _, hp | .u2 _, hp => by simp [Plain] at hp
+  | .code fs, hp => by
+      simp only [Plain, Bool.and_eq_true] at hp
+      have hall := sizeF_le fs hp.2
+      obtain ⟨a, pos, k, nl, ss, fl, c, cs, ns, vn, fv, cv, fn, nm, first, lt, hfs, _, _, _, _, _, _, _, _, hpos⟩ :=
+        shape_of ver fs hp.1
+      -- every field is either an integer (size 1) or an object whose dump is part of the code's dump
+      have hL : ∀ n v, (n, v) ∈ fs → size v + 49 ≤ 2 * (dump (V.code fs)).length := by
+        intro n v hm
+        have hv := hall n v hm
+        subst hfs
+        have hlen : (dump (V.code [("co_argcount", .int a), ("co_posonlyargcount", pos), ("co_kwonlyargcount", .int k),
+            ("co_nlocals", .int nl), ("co_stacksize", .int ss), ("co_flags", .int fl), ("co_code", c), ("co_consts", cs),
+            ("co_names", ns), ("co_varnames", vn), ("co_freevars", fv), ("co_cellvars", cv), ("co_filename", fn),
+            ("co_name", nm), ("co_firstlineno", .int first), ("co_linetable", lt)])).length ≥
+            25 + (dump c).length + (dump cs).length + (dump ns).length + (dump vn).length + (dump fv).length +
+              (dump cv).length + (dump fn).length + (dump nm).length + (dump lt).length := by
+          simp only [dump, dumpFields, assembleCode, List.length_append, List.length_cons, List.length_nil, wLong_length]
+          omega
+        simp only [List.mem_cons, Prod.mk.injEq, List.mem_nil_iff, or_false] at hm
+        rcases hm with ⟨_, rfl⟩ | ⟨_, rfl⟩ | ⟨_, rfl⟩ | ⟨_, rfl⟩ | ⟨_, rfl⟩ | ⟨_, rfl⟩ | ⟨_, rfl⟩ | ⟨_, rfl⟩ | ⟨_, rfl⟩ |
+          ⟨_, rfl⟩ | ⟨_, rfl⟩ | ⟨_, rfl⟩ | ⟨_, rfl⟩ | ⟨_, rfl⟩ | ⟨_, rfl⟩ | ⟨_, rfl⟩
+        all_goals first
+          | (simp only [size]; omega)
+          | omega
+          | (rcases hpos with ⟨p, rfl, _, _⟩ | ⟨rfl, _⟩ <;> simp only [size] <;> omega)
+      have hF : ∀ (gs : List (String × V)), (∀ n v, (n, v) ∈ gs → (n, v) ∈ fs) → sizeF gs + 49 ≤ 2 * (dump (V.code fs)).length := by
+        intro gs
+        induction gs with
+        | nil =>
+          intro _
+          have := hL "co_argcount" (.int a) (by rw [hfs]; simp)
+          simp only [sizeF]; simp only [size] at this; omega
+        | cons x xs ih =>
+          intro hsub
+          obtain ⟨n, v⟩ := x
+          have h1 := hL n v (hsub n v (by simp))
+          have h2 := ih (fun n' v' h' => hsub n' v' (by simp [h']))
+          simp only [sizeF]
+          omega
+      have := hF fs (fun _ _ h => h)
+      simp only [size]
+      omega
+theorem sizeF_le : (fs : List (String × V)) → PlainF ver fs = true → ∀ n v, (n, v) ∈ fs → size v + 1 ≤ 2 * (dump v).length
+  | [], _ => by intro n v h; simp at h
+  | (m, w) :: r, hp => by
+      simp only [PlainF, Bool.and_eq_true] at hp
+      intro n v h
+      rcases List.mem_cons.mp h with h | h
+      · cases h; exact size_le w hp.1
+      · exact sizeF_le r hp.2 n v h
+theorem sizeL_le : (xs : List V) → PlainL ver xs = true → sizeL xs ≤ 1 + 2 * (dumpList xs).length
   | [], _ => by simp [sizeL, dumpList]
   | x :: xs, hp => by
       simp only [PlainL, Bool.and_eq_true] at hp
       have h1 := size_le x hp.1
       have h2 := sizeL_le xs hp.2
       simp [sizeL, dumpList]; omega
-theorem sizeKV_le : (kvs : List (V × V)) → PlainKV kvs = true → sizeKV kvs ≤ 2 + 2 * (dumpKVs kvs).length
+theorem sizeKV_le : (kvs : List (V × V)) → PlainKV ver kvs = true → sizeKV kvs ≤ 2 + 2 * (dumpKVs kvs).length
   | [], _ => by simp [sizeKV, dumpKVs]
   | (k, v) :: r, hp => by
       simp only [PlainKV, Bool.and_eq_true] at hp
@@ -573,15 +809,14 @@ end
     `xdis.marsh.dumps` writes are read by marshal.c's reader to the same value (`long` and `int`
     being one type in Python 3), consuming exactly those bytes: nothing left over when the
     string is exactly the dump -/
-theorem C14_dumps (v : V) (hp : Plain v = true) (hd : depthOf v ≤ 1999) :
-    Spec.Marshal.loads ver312 (dump v) = .ok (norm v, []) := by
+theorem C14_dumps (hera : era ver = 4) (v : V) (hp : Plain ver v = true) (hd : depthOf v ≤ 1999) :
+    Spec.Marshal.loads ver (dump v) = .ok (norm v, []) := by
   unfold Spec.Marshal.loads loadsWith
-  have hera : era ver312 = 4 := by decide
-  have hsz := size_le v hp
-  have hA := (all_stmts (2 * (dump v).length + 3)).1 v hp (by omega) (0 + 1) [] [] [] (by omega)
+  have hsz := size_le ver v hp
+  have hA := (all_stmts ver (2 * (dump v).length + 3)).1 v hp (by omega) (0 + 1) false [] [] [] (by omega)
   simp only [List.append_nil, st] at hA
   rw [hera]
-  show (match (obj cpython 4 ver312 (2 * (dump v).length + 3 + 1) 0 false).run { inp := dump v, refs := [], strs := [] } with
+  show (match (obj cpython 4 ver (2 * (dump v).length + 3 + 1) 0 false).run { inp := dump v, refs := [], strs := [] } with
     | .ok (v, s) => Except.ok (v, s.inp) | .error e => .error e) = _
   unfold obj
   rw [run_bind, hA]
@@ -592,6 +827,6 @@ theorem C14_dumps (v : V) (hp : Plain v = true) (hd : depthOf v ≤ 1999) :
 example :
     let v := V.tuple [.int (2 ^ 100), .long (-(2 ^ 31) - 1), .str [233, 8364, 128512, 0xdc80], .floatText [49, 46, 53],
                       .list [.dict [(.none, .int 1), (.int 2, .none)], .fset [.bytes [0, 255]]], .tru, .ellipsis]
-    Plain v = true ∧ depthOf v ≤ 1999 := by decide +kernel
+    Plain [3, 12] v = true ∧ depthOf v ≤ 1999 ∧ era [3, 12] = 4 := by decide +kernel
 
 end XV.Props.C14.Dumps
